@@ -411,6 +411,7 @@ namespace {
                 op.v[0] = i;
                 op.v[1] = r.range(0, 3);    // yields before
                 op.v[2] = r.range(0, 2);    // yields inside f
+                op.v[3] = r.chance(1, 2) ? 1 : 0;    // after an attempt of its own that threw: give up instead of retrying
                 p.push_back(op);
             }
             ctx.program = p;
@@ -458,6 +459,13 @@ namespace {
                     {
                         VH_CHECK(ran_here && threw_here, "C09.once.exception_wrong_caller",
                             "party %d received an exception thrown by another caller's attempt", me);
+                        if (op.v[3] & 1)
+                        {
+                            // this caller does not come back: the callers that are blocked in call_once have to
+                            // retry by themselves
+                            probe("once.thrower_gave_up");
+                            break;
+                        }
                         continue;    // retry
                     }
                     VH_CHECK(!threw_here, "C09.once.exception_lost", "the throwing attempt of party %d did not propagate", me);
@@ -471,8 +479,15 @@ namespace {
         while (!P.all_finished()) main_pause();
         P.join_os();
         sim_quiesce(2000000);
-        if (!prog.empty())
-            VH_CHECK(OS.successes == 1, "C09.once.count", "callable succeeded %d times", OS.successes);
+        {
+            // the callable succeeds unless every caller gave up after a throwing attempt of its own
+            int stayers = 0;
+            for (auto const& op : prog)
+                if (!(op.v[3] & 1)) stayers++;
+            if (!prog.empty() && (stayers > 0 || (int) prog.size() > OS.throw_first))
+                VH_CHECK(OS.successes == 1, "C09.once.count", "callable succeeded %d times", OS.successes);
+            VH_CHECK(OS.successes <= 1, "C09.once.twice", "callable succeeded %d times", OS.successes);
+        }
         pk::stop();
     }
 
